@@ -69,6 +69,10 @@ MISSING_RESULT = [[(o, ["missing.json"])] for o in RESULT_OPTS] + [
     [("--sonar-issues-json", ["sonar_a.json", "sonar_b.json"]), ("--sonar-hotspots-json", ["sonar_h.json", "missing_h.json"])],
     [("--sonar-hotspots-json", ["sonar_h.json"]), ("--defectdojo-findings-json", ["missing.json"])],
     [("--defectdojo-findings-json", ["dd_a.json"]), ("--sarif", ["missing.sarif"])],
+    # an empty path names no file (os.path.exists("") is False; Path("") would be the current directory)
+    [("--sonar-issues-json", [""])],
+    [("--sonar-issues-json", ["sonar_a.json", ""])],
+    [("--defectdojo-findings-json", ["", "dd_a.json"])],
 ]
 
 FILES = {
@@ -94,13 +98,13 @@ def make_exp(conds, rng):
         elif c == "ai-env":
             exp["env"].update(AI_ENVS[var])
         elif c == "missing-dir":
-            directory = "<S>/does-not-exist"
+            directory = ["<S>/does-not-exist", "", "<S>/T/pkg/nope"][var]  # "" = an unset shell variable
         elif c == "missing-result-file":
             for opt, names in MISSING_RESULT[var]:
                 for n in names:
-                    if not n.startswith("missing"):
+                    if n and not n.startswith("missing"):
                         exp["results"][n] = enc(json.dumps(SARIF_CODEQL if n.endswith(".sarif") else SONAR_EMPTY if n.startswith("sonar") else DD_EMPTY).encode())
-                argv_pre += [opt, ",".join("<R>/" + n for n in names)]
+                argv_pre += [opt, ",".join("<R>/" + n if n else "" for n in names)]
         elif c == "dup-sarif-tool":
             names = []
             for j, doc in enumerate(DUP_SARIF[var]):
@@ -170,7 +174,7 @@ class C20(Check):
         out = [("terminal", i) for i in range(len(TERMINAL))]
         out += [("invalid-args", i) for i in range(len(INVALID_ARGS))]
         out += [("ai-env", i) for i in range(len(AI_ENVS))]
-        out += [("missing-dir", 0)]
+        out += [("missing-dir", i) for i in range(3)]
         out += [("missing-result-file", i) for i in range(len(MISSING_RESULT))]
         out += [("dup-sarif-tool", i) for i in range(len(DUP_SARIF))]
         out += [("report-unwritable", i) for i in range(len(REPORT_FAULTS))]
